@@ -959,6 +959,18 @@ impl Gen {
             base.push(g.rng.pick(&g.names).clone());
             base
         };
+        // big scenarios: regularly modify a multi-MiB file in place (copy-up across the 4 MiB copy loop)
+        if self.big && self.rng.chance(1, 4) {
+            let bigs: Vec<&Value> = files.iter().filter(|x| parse_runs(&x["c"]).iter().map(|t| t.2).sum::<u64>() >= 65).cloned().collect();
+            if let Some(p) = pick_row(self, &bigs) {
+                let len = rows.iter().find(|x| path_of(&x["p"]) == p).map(|x| parse_runs(&x["c"]).iter().map(|t| t.2).sum::<u64>()).unwrap_or(0);
+                return match self.rng.below(3) {
+                    0 => json!({"op":"write","p":p,"off":self.rng.below(len),"c":[[self.fresh("w"), 0, 1]],"rdwr":self.rng.chance(1,2)}),
+                    1 => json!({"op":"chmod","p":p,"m":*self.rng.pick(&FMODES)}),
+                    _ => json!({"op":"setxattr","p":p,"n":"user.j","v":"big"}),
+                };
+            }
+        }
         let r = self.rng.below(100);
         let or_rand = |g: &mut Gen, v: Option<Vec<String>>| -> Vec<String> {
             match v {
@@ -1067,6 +1079,23 @@ fn main() {
                     let mut rows = Vec::new();
                     g.layer(l, &mut Vec::new(), &mut rows);
                     layers.push(Value::Array(rows));
+                }
+                if big {
+                    // one multi-MiB file that is certainly visible and lives in a lower layer
+                    let name = g.rng.pick(&g.names).clone();
+                    let first_lower = if has_upper { 1 } else { 0 };
+                    let target = g.rng.range(first_lower as u64, layers.len() as u64 - 1) as usize;
+                    for (li, l) in layers.iter_mut().enumerate() {
+                        if li <= target {
+                            if let Some(a) = l.as_array_mut() {
+                                a.retain(|r| path_of(&r["p"])[0] != name);
+                            }
+                        }
+                    }
+                    let n = g.rng.range(65, 150);
+                    let stream = g.fresh("BIG");
+                    layers[target].as_array_mut().unwrap().push(json!({"p": [name], "t": "file", "m": 0o640, "c": [[stream, 0, n]],
+                                                                      "x": [["user.k", "big"]]}));
                 }
                 let scn = json!({"id": format!("r{}_{}", seed, k), "B": if big { 65536 } else { 512 }, "upper": has_upper,
                                  "layers": layers, "names": g.names.clone(), "depth": 3});
